@@ -308,6 +308,39 @@ class DictPrimitiveDetach(_c03.DictStore):
   trace_only_formalized_values_are_stored = None
   trace_rejected_write_changes_nothing = None
 
+  def setup_policy(self, policy):
+    super().setup_policy(policy)
+    me = self
+
+    def formalized(interp, args, kwargs, frame):
+      # the value in its final form: a new value, or -- when the caller writes
+      # back what is stored already (e.g. a default that is the stored node) --
+      # the very node that sits under the key
+      old = interp.resolve(me._old)
+      if isinstance(old, SObj) and interp.path.decide(2, 'formalized-is-the-stored-node') == 1:
+        r = old
+      else:
+        r = SAny('formal')
+      interp.path.event('formalize', '_formalized_value', (interp.resolve(args[3]), r))
+      if interp.path.decide(2, 'rejected') == 1:
+        raise I.PyRaise(ExcVal(TypeError, ('rejected',)))
+      return r
+    policy.handlers[id(pg.Dict._formalized_value)] = formalized
+
+  def trace_node_that_stays_stored_is_not_detached(self, events, outcome, interp, env):
+    """A node that is (still) stored under the key when the call returns keeps
+    its parent: no sym_setparent(node, None) without a later re-adoption."""
+    if outcome[0] != 'return':
+      return True
+    old = interp.resolve(self._old)
+    fz = [e for e in events if e.kind == 'formalize']
+    if not isinstance(old, SObj) or not fz or fz[0].data[1] is not old:
+      return True
+    if [e for e in events if e.kind == 'payload-write' and e.what == 'dict.__delitem__']:
+      return True
+    sp = [e for e in events if e.kind == 'setparent' and e.data[0] is old]
+    return not sp or sp[-1].data[1] is not None
+
   def trace_removed_child_is_detached(self, events, outcome, interp, env):
     if outcome[0] != 'return':
       return True
@@ -327,6 +360,19 @@ class DictPrimitiveDetach(_c03.DictStore):
 
   def replay(self, obligation, m):
     bad = []
+    if 'stays_stored' in obligation:
+      # writing back the node that is stored already: a declared key whose
+      # default is a symbolic value, reset to the default twice
+      for how, op in (('del d[k] twice', lambda d: (d.__delitem__('n'), d.__delitem__('n'))),
+                      ('d.rebind({k: MISSING_VALUE}) twice',
+                       lambda d: (d.rebind({'n': pg.MISSING_VALUE}, raise_on_no_change=False),
+                                  d.rebind({'n': pg.MISSING_VALUE}, raise_on_no_change=False)))):
+        d = pg.Dict(n=pg.Dict(x=2), value_spec=pg.typing.Dict([('n', pg.typing.Any(default=pg.Dict(x=1)))]))
+        op(d)
+        child = d.sym_getattr('n')
+        if isinstance(child, pg.Dict) and (child.sym_parent is not d or str(child.sym_path) != 'n'):
+          bad.append(f'{how}: the node stored under the key has parent is d: {child.sym_parent is d}, path={str(child.sym_path)!r}')
+      return dict(outcome='reproduced' if bad else 'not-reproduced', detail='; '.join(bad) or 'stored node keeps its parent')
     for how, op in (('del d[k]', lambda d: d.__delitem__('n')), ('d[k] = 5', lambda d: d.__setitem__('n', 5)),
                     ('d.rebind({k: MISSING_VALUE})', lambda d: d.rebind({'n': pg.MISSING_VALUE})),
                     ('d.pop(k)', lambda d: d.pop('n'))):
